@@ -1481,7 +1481,7 @@ class _Stmts:
             fa = [x for x in ra if x[1].kind == FALL]
             fb = [x for x in rb if x[1].kind == FALL]
             merged = None
-            if len(fa) == 1 and len(fb) == 1 and not z3.is_false(t) and not z3.is_true(t):
+            if len(fa) == 1 and len(fb) == 1 and not z3.is_false(t) and not z3.is_true(t) and not self.proc.locals.get('$nomerge'):
                 merged = self.merge_states(n0, t, fa[0][0], fb[0][0])
             if merged is not None:
                 out.extend(x for x in ra + rb if x[1].kind != FALL)
